@@ -257,9 +257,78 @@ def match_finding(finding, failure):
         return False
 
 
+class SaveDiff(vlib.Stream):
+    """The observation point interface.index.save_diff / save_param_file(diff_only=True, replace_path=BASE): the diff written
+    to disk (path values below BASE spelt with a $(variable) that the file itself defines), parsed again and merged into the
+    master, reproduces the working parameters.  Oracle only.  Path values continue after BASE with '/', with identifier
+    characters (a sibling directory BASE2, BASE_old) or not at all."""
+    name = "save_diff"
+    cluster = "Idem"
+    MASTER = ("inp {\n  model = None\n    .type = path\n  map = None\n    .type = path\n  extra = None\n    .type = path\n"
+              "    .multiple = True\n  n = 1\n    .type = int\n  label = None\n    .type = str\n}\n")
+    BASE = "/data/run"
+
+    def __init__(self, ctx):
+        super().__init__(ctx)
+        self.fp = vlib.import_freephil()
+
+    def cases(self, rng, tier):
+        tails = ["/model.pdb", "2/map.ccp4", "_old/a.cif", "/sub/b.cif", "", "/", ".bak/x", "x/y", "/a b/c", "-1/z"]
+        for _ in range(60 if tier == "quick" else 600):
+            vals = [(self.BASE + rng.choice(tails)) if rng.random() < 0.8 else rng.choice(["/other/c.pdb", "rel/d", "None"]) for _ in range(5)]
+            yield {"model": vals[0], "map": vals[1], "extra": vals[2:2 + rng.randint(0, 3)], "n": rng.randint(1, 3), "rp": rng.random() < 0.85}
+
+    def impl(self, case):
+        import os, shutil, tempfile
+        from freephil import interface
+        fp = self.fp
+
+        def q(v):
+            return v if v == "None" else '"%s"' % v
+        user = "inp.model = %s\ninp.map = %s\n%sinp.n = %d\n" % (
+            q(case["model"]), q(case["map"]), "".join("inp.extra = %s\n" % q(v) for v in case["extra"]), case["n"])
+
+        def values(w):
+            p = w.extract().inp
+            return [p.model, p.map, list(p.extra), p.n]
+        d = tempfile.mkdtemp(prefix="c08sd_")
+        try:
+            with warnings.catch_warnings():
+                warnings.simplefilter("ignore")
+                master = fp.parse(self.MASTER)
+                idx = interface.index(master_phil=master, working_phil=fp.parse(user), fetch_new=True)
+                want = values(idx.working_phil)
+                f = os.path.join(d, "diff.eff")
+                idx.save_diff(f, replace_path=self.BASE if case["rp"] else None)
+                text = open(f).read()
+                try:
+                    got = values(master.fetch(source=fp.parse(file_name=f)))
+                except RuntimeError as e:
+                    return ["unreadable", str(e)[:200], text[:400]]
+            return ["ok"] if got == want else ["differs", got, want, text[:400]]
+        finally:
+            shutil.rmtree(d, ignore_errors=True)
+
+    def requests(self, case, o):
+        return []
+
+    def model(self, case, replies, o):
+        return o
+
+    def prop(self, case, o):
+        if o[0] == "unreadable":
+            return "the diff written by save_diff cannot be merged back (%s); file: %r" % (o[1], o[2])
+        if o[0] == "differs":
+            return "merging the saved diff back gives %r, the working parameters are %r; file: %r" % (o[1], o[2], o[3])
+        return None
+
+    def tag(self, case, o):
+        return o[0]
+
+
 SPEC = {
     "clusters": ["Idem"],
-    "streams": [Diffs],
+    "streams": [Diffs, SaveDiff],
     "rule": "the masters and sources of the C07 stream (seeded grammar; canonical and non-canonical spellings of defaults and values: "
             "yes/1/0, 3*2, 1,2, 1.0, unquoted strings, None/Auto, choices by name / star / plus form; .multiple definitions and "
             "scopes with added, repeated and template-equal instances; 30 % of the masters with repeated sibling names); per case 8 "
